@@ -224,7 +224,7 @@ def gaussobj_section(ctx, D, rng, S):
                 return kind, A, _tok_plain("dense", A.tolist()), A
 
     runs, olines = [], []
-    nrun = 10 * S
+    nrun = 8 * S
     for r in range(nrun):
         n = rng.choice([2, 3, 3, 4])
         form = forms[r % 4]
